@@ -24,6 +24,10 @@ use serde_json::{json, Value};
 const BUILD: &str = "std";
 #[cfg(not(feature = "std"))]
 const BUILD: &str = "nostd";
+/// debug (debug assertions + overflow checks) or release
+fn profile() -> &'static str {
+    if cfg!(debug_assertions) { "debug" } else { "release" }
+}
 
 // ---------------------------------------------------------------- encoding without library conversions
 fn enc_u128(v: u128) -> Value {
@@ -230,7 +234,7 @@ fn run_root(log: &mut Log, x: &IBig, n: usize, src: &str) {
         }
         outs.push("I.cbrt", guarded(|| json!({"s": enc_i(&CubicRoot::cbrt(x))})));
     }
-    log.ev(json!({"prop": "C12", "op": "root", "src": src, "build": BUILD, "x": enc_i(x), "n": n,
+    log.ev(json!({"prop": "C12", "op": "root", "src": src, "build": BUILD, "profile": profile(), "x": enc_i(x), "n": n,
         "outs": outs.grouped(), "rem": rem.grouped()}));
 }
 
@@ -242,7 +246,7 @@ fn run_ilog(log: &mut Log, x: &IBig, b: &UBig, src: &str) {
         outs.push("U.ilog", guarded(|| json!({"e": enc_u128(u.ilog(b) as u128)})));
     }
     outs.push("I.ilog", guarded(|| json!({"e": enc_u128(x.ilog(b) as u128)})));
-    log.ev(json!({"prop": "C12", "op": "ilog", "src": src, "build": BUILD, "x": enc_i(x), "b": enc_u(b), "outs": outs.grouped()}));
+    log.ev(json!({"prop": "C12", "op": "ilog", "src": src, "build": BUILD, "profile": profile(), "x": enc_i(x), "b": enc_u(b), "outs": outs.grouped()}));
 }
 fn run_remove(log: &mut Log, x: &UBig, f: &UBig, src: &str) {
     let mut outs = Outs::new();
@@ -598,8 +602,12 @@ fn main() {
     let only_log2 = args.extra.iter().any(|a| a == "--only-log2");
     if let Some(path) = &args.cases {
         for c in read_cases(path) {
-            let src = c["src"].as_str().unwrap_or("gen").to_string();
-            run_case(&mut log, &c, if src == "rnd" { "rnd" } else { "gen" }, only_log2);
+            let src = match (c["fam"].as_str(), c["src"].as_str()) {
+                (Some(f), _) => format!("gen:{}", f),
+                (None, Some(s)) => s.to_string(),
+                _ => "case".to_string(),
+            };
+            run_case(&mut log, &c, &src, only_log2);
         }
     }
     random_driver(&mut log, &mut rng, args.n, args.max_words, only_log2);
